@@ -102,9 +102,19 @@ fn main() {
             let mut callbacks = 0u64;
             let mut exempt = 0u64;
             let mut samples: Vec<String> = vec![];
+            // determinism self-test mode: trace every run and hash the full text
+            let trace_all = std::env::var_os("VERIF_TRACE_ALL").is_some();
+            let mut text_hash: u64 = 0xcbf29ce484222325;
             for idx in start..start + count {
-                let want_trace = idx < start + 2;
+                let want_trace = trace_all || idx < start + 2;
                 let r = sched::run_one(&fam, seed, idx, Choices::seeded(run_seed(seed, fam.name, idx)), want_trace);
+                if trace_all {
+                    for l in &r.trace {
+                        for b in l.bytes() {
+                            text_hash = (text_hash ^ b as u64).wrapping_mul(0x100000001b3);
+                        }
+                    }
+                }
                 hashes.push(r.hash);
                 if !r.faults.is_empty() && r.steps >= 3 {
                     nontrivial.push(r.hash);
@@ -117,7 +127,7 @@ fn main() {
                 steps += r.steps as u64;
                 callbacks += r.callbacks as u64;
                 exempt += r.leak_exempt as u64;
-                if want_trace {
+                if want_trace && samples.len() < 2 {
                     let lines: Vec<String> = r.trace.iter().take(60).map(|l| cmhost::report::json_str(l)).collect();
                     samples.push(format!("{{\"run_index\":{idx},\"trace\":[{}]}}", lines.join(",")));
                 }
@@ -143,6 +153,9 @@ fn main() {
             let f2: Vec<String> = runs_with_fault.iter().map(|(k, v)| format!("\"{k}\":{v}")).collect();
             let dn: BTreeSet<u64> = nontrivial.iter().copied().collect();
             let dh: BTreeSet<u64> = hashes.iter().copied().collect();
+            if trace_all {
+                println!("TRACE-TEXT-HASH {text_hash:016x}");
+            }
             println!(
                 "SUMMARY {{\"family\":\"{}\",\"feature_set\":\"{}\",\"start\":{start},\"runs\":{count},\"steps\":{steps},\"callbacks\":{callbacks},\"distinct_traces\":{},\"distinct_nontrivial\":{},\"states\":{},\"leak_check_skipped\":{exempt},\"wall_s\":{:.3},\"faults\":{{{}}},\"runs_with_fault\":{{{}}},\"samples\":[{}]}}",
                 fam.name,
